@@ -50,6 +50,16 @@ def cases(tier):
                     for sp in ('none', 'each', 'first-last', 'dup'):
                         for thr in (0, 1e-12):
                             yield {'k': 'slim', 'ss': list(ss), 'cyclic': cyclic, 'tc': [list(x) for x in tc], 'sp': sp, 'thr': thr}
+            # bonds whose two-cell super-core has FULL rank (creation, annihilation and both exchanges of a two-state pair): with a
+            # tiny non-zero threshold no singular value is negligible, nothing may be cut
+            if set(ss) == {2}:
+                rich = [[0, 1, 0, 1], [1, 0, 1, 0], [0, 1, 1, 0], [1, 0, 0, 1]]
+                for cyclic in (False, True):
+                    for sp in ('none', 'each'):
+                        for thr in (1e-12, 1e-14, 0):
+                            yield {'k': 'slim', 'ss': list(ss), 'cyclic': cyclic, 'tc': [[list(x) for x in rich]] * (d if cyclic else d - 1), 'sp': sp, 'thr': thr}
+                            yield {'k': 'hom', 'ss': list(ss), 'cyclic': cyclic, 's': [[0, 1, 0.8], [1, 0, 0.2]] if sp == 'each' else [],
+                                   't': [x + [rt] for x, rt in zip(rich, (1.0, 2.5, 0.7, 0.35))], 'thr': thr}
             # every single-cell reaction per cell, two-cell part fixed
             pairs = [[(a, b) for a in range(n) for b in range(n) if a != b] for n in ss]
             if d <= 3:
